@@ -70,6 +70,8 @@ type Ctx struct {
 	fresh  map[string]int
 	Sorts  map[string]bool
 	tt, ff *Term
+	// FreshParams: see Fresh.
+	FreshParams []*Term
 }
 
 func NewCtx() *Ctx {
@@ -164,13 +166,19 @@ func (c *Ctx) Sym(name string, s Sort) *Term {
 	return c.mk(&Term{Op: "sym", Name: name, Sort: s})
 }
 
-// Fresh returns a fresh symbol with the given prefix.
+// Fresh returns a fresh symbol with the given prefix.  While FreshParams is
+// non-empty (inside the body of a loop whose invariant is derived by
+// generalising over the loop counter) the symbol is a fresh function applied
+// to those parameters, i.e. a Skolem function of the enclosing counters.
 func (c *Ctx) Fresh(prefix string, s Sort) *Term {
 	prefix = Sanitize(prefix)
 	for {
 		c.fresh[prefix]++
 		n := fmt.Sprintf("%s!%d", prefix, c.fresh[prefix])
 		if _, ok := c.Funcs[n]; !ok {
+			if len(c.FreshParams) > 0 {
+				return c.App(n, s, c.FreshParams...)
+			}
 			return c.Sym(n, s)
 		}
 	}
